@@ -94,9 +94,10 @@ func (r *run) hook(point string, obj any, a, b int) {
 		if r.subs.Is(obj) {
 			r.log(point, 0, "", 0)
 		}
-	case "subs.unsub":
+	case "subs.unsub.begin": // logged before any subscriber channel is closed (the hook at the end of the critical
+		// section would come after a subscriber could already have seen its channel closed)
 		if r.subs.Is(obj) {
-			r.log(point, 0, r.curChan, 0)
+			r.log("subs.unsub", 0, r.curChan, 0)
 		}
 	default:
 		return
